@@ -41,9 +41,9 @@ META = {
                   "Trusted: TLC, the text projection of stdout lines (index, timestamp column as message key, ids), hash31.",
 }
 
-PARAMS = ["winc", "lcsc", "eac", "f", "ord", "sort", "style", "ofile"]
+PARAMS = ["winc", "lcsc", "eac", "f", "ord", "sort", "style", "ofile", "extra", "args"]
 DEFAULT = {"winc": "none", "lcsc": "none", "eac": [], "f": {"fmt": "none", "ff": []}, "ord": "asc", "sort": False, "style": "a",
-           "ofile": False}
+           "ofile": False, "extra": "none", "args": "list"}
 
 
 def vkey(v):
@@ -264,7 +264,7 @@ def check(ctx):
         if fn.startswith("trace-set"):
             os.remove(ctx.path(fn))
     jobs = max(2, min(12, c.NCPU - 4))
-    info = drive(binp, ["--adlt", adlt, "--work", ctx.work, "--plan", planf, "--seed", str(ctx.seed), "--jobs", str(jobs),
+    info = drive(binp, ["--adlt", adlt, "--work", ctx.work, "--plan", planf, "--seed", str(ctx.seed), "--jobs", str(jobs), "--tests", os.path.join(c.REPO, "tests"),
                         "--chunk", "4000"])
     if info["tool_errors"]:
         raise c.ToolError("driver reported: %s" % info["tool_errors"][:3])
@@ -278,7 +278,7 @@ def check(ctx):
     counters = {"cases": 0, "ref_cases": 0, "sel_cases": 0, "winc": {}, "lcsc": {}, "ffmt": {}, "neac": {}, "style": {}, "sort": 0,
                 "ofile": 0, "perm_non_identity": 0, "multi_file_cases": 0, "empty_output": 0, "partial_output": 0,
                 "full_output": 0, "lines": 0, "filemsgs": 0, "lifecycles_per_set": {}, "msgs_per_set": {}, "skipped_noref": 0,
-                "ord": {}, "eac_part_classes": {}, "eac_regex_then_short_literal_cases": 0, "filter_file_entries": {}, "filter_file_eol": {},
+                "ord": {}, "extra": {}, "args": {}, "eac_part_classes": {}, "eac_regex_then_short_literal_cases": 0, "filter_file_entries": {}, "filter_file_eol": {},
                 "filter_file_real_entry_at": {}, "lcs_unsorted_list_cases_with_output": 0, "lcs_duplicate_id_cases_with_output": 0,
                 "lcs_unknown_mixed_cases_with_output": 0, "eac_three_expression_cases": 0, "sets_with_4_or_more_lifecycles": 0, "jitter_sets": 0, "sorted_output_differs_from_index_order": 0, "sorted_and_e_window_cases": 0,
                 "sort_permutes_across_e_boundary": 0, "tied_first_rx_same_ecu_set_cases": 0, "tied_first_rx_different_ecu_sets_cases": 0, "dup_file_argument_cases": 0}
@@ -323,7 +323,7 @@ def check(ctx):
                 counters["cases"] += 1
                 counters["sel_cases"] += 1
                 o = h["opts"]
-                for f in ("winc", "lcsc", "ffmt", "style", "ord"):
+                for f in ("winc", "lcsc", "ffmt", "style", "ord", "extra", "args"):
                     counters[f][o[f]] = counters[f].get(o[f], 0) + 1
                 counters["neac"][str(len(o["eac"]))] = counters["neac"].get(str(len(o["eac"])), 0) + 1
                 counters["sort"] += 1 if o["sort"] else 0
@@ -426,7 +426,8 @@ def check(ctx):
     # vacuity: every class of every option must have been exercised, and real selections must have happened
     missing = [f + ":" + x for f, dom in (("winc", ["none", "b", "e", "in", "empty", "beyond"]),
                                           ("lcsc", ["none", "first", "last", "firstlast", "lastfirst", "perm3", "dup", "unknownmixed", "absent"]),
-                                          ("ord", ["asc", "rev", "dup"]),
+                                          ("ord", ["asc", "rev", "dup"]), ("extra", ["none", "decoders", "ft", "debug"]),
+                                          ("args", ["list", "glob", "plus_empty", "plus_garbage", "plus_missing"]),
                                           ("ffmt", ["none", "dlf", "conv"]), ("style", ["a", "x", "s", "none"]),
                                           ("neac", ["0", "1", "2", "3"])) for x in dom if counters[f].get(x, 0) == 0]
     if ctx.violations:
